@@ -31,6 +31,16 @@ type BucketVersioningConfiguration struct {
 	Status *BucketVersioningStatus
 }
 
+// NullVersionID is the version id of the single version an unversioned or
+// versioning-suspended write creates and replaces.
+const NullVersionID = "null"
+
+// IsNullVersionID reports whether versionID denotes the null version. Rows
+// written before versioning support carry no version id and count as null.
+func IsNullVersionID(versionID *string) bool {
+	return versionID == nil || *versionID == NullVersionID
+}
+
 // StorageClassStandard is the storage class assigned when a request does not
 // specify one. Storage classes are S3-compatible metadata labels; all classes
 // are immediately readable (no archive/restore semantics).
